@@ -234,10 +234,13 @@ func (e *syncErr) Error() string { return e.what }
 // barrier: monitor 0 sends a one-shot chat; once a monitor has received it, every frame
 // written to that monitor before the barrier was broadcast has arrived (writes to one
 // connection are serialised, TCP keeps order). Sources must have completed before.
-func (w *world) barrier() error {
+func (w *world) barrier() error { return w.barrierVia(0) }
+
+func (w *world) barrierVia(by int) error {
 	tok := w.token()
 	w.m.oneShot(tok, "barrier")
-	if err := oneShotChat(w.mons[0], "BARRIER "+tok); err != nil {
+	w.m.lastBarrier = tok
+	if err := oneShotChat(w.mons[by], "BARRIER "+tok); err != nil {
 		return &syncErr{"barrier send: " + err.Error()}
 	}
 	for i, m := range w.mons {
@@ -254,25 +257,45 @@ func (w *world) post(body []byte) rig.Resp {
 	return rig.Post(w.http.GinEngine, "/", body, nil)
 }
 
-func (w *world) registerAgent() (*agentState, error) {
+// prepareAgent draws a new agent identity (coordinator only).
+func (w *world) prepareAgent() *agentState {
 	w.agSeq++
 	id := uint32(0x11000000) + uint32(w.id&0xff)<<16 + w.agSeq
 	a := &agentState{ID: id, Name: fmt.Sprintf("%08x", id)}
 	a.Key = bytes.Repeat([]byte{byte(0x30 + w.agSeq%64)}, 32)
 	a.IV = bytes.Repeat([]byte{byte(0x51 + w.agSeq%64)}, 16)
+	return a
+}
+
+// commitAgent tells the world and the model that a registration went through (coordinator only).
+func (w *world) commitAgent(a *agentState) {
+	w.ags = append(w.ags, a)
+	w.m.agentRegistered(a.Name)
+}
+
+func (w *world) registerAgent() (*agentState, error) {
+	a := w.prepareAgent()
+	if err := w.sendRegister(a); err != nil {
+		return nil, err
+	}
+	w.commitAgent(a)
+	return a, nil
+}
+
+// sendRegister posts the DEMON_INIT package (any goroutine).
+func (w *world) sendRegister(a *agentState) error {
+	id := a.ID
 	m := &demon.Meta{AgentID: id, Hostname: "HOST" + a.Name, Username: "user", Domain: "DOM", InternalIP: "10.0.0.1",
 		ProcessPath: "C:\\x\\proc.exe", PID: 10, TID: 11, PPID: 12, Arch: 2, Elevated: 1, BaseAddr: 0x7ff000,
 		OS: [5]uint32{10, 0, 1, 0, 19045}, OSArch: 9, Sleep: 5, Jitter: 10}
 	resp := w.post(demon.Register(id, a.Key, a.IV, m))
 	if resp.Panic != nil {
-		return nil, fmt.Errorf("registration panicked: %v", resp.Panic)
+		return fmt.Errorf("registration panicked: %v", resp.Panic)
 	}
 	if resp.Status != 200 {
-		return nil, fmt.Errorf("registration answered %d", resp.Status)
+		return fmt.Errorf("registration answered %d", resp.Status)
 	}
-	w.ags = append(w.ags, a)
-	w.m.agentRegistered(a.Name)
-	return a, nil
+	return nil
 }
 
 // output posts one check-in carrying COMMAND_OUTPUT callbacks (one console event each).
